@@ -15,7 +15,10 @@
    * Ghost output (read by nothing in the algorithm): [g_t] = the vector whose norm the last
      convergence test used (the recurrence residual), [g_X] = the largest 2-norm reached by any
      iterate or update term -- the quantity the drift allowance of the C08 oracle needs and
-     that is not observable from outside the solver. *)
+     that is not observable from outside the solver -- and [g_exit] = which `return` was taken:
+     0 Ok(0) at start-up, 1 Ok(i) after a full step, 3 Ok(i) at the BiCGSTAB half step,
+     2 budget exhausted (the final `Err(resid)`), 10 BiCGSTAB `rho_1 == 0`, 11 BiCGSTAB `omega == 0`,
+     20..25 QMR `rho == 0`, `xi == 0`, `delta == 0`, `ep == 0`, `beta == 0`, `gamma == 0`. *)
 From Coq Require Import List Arith Lia Bool ZArith.
 From OV Require Import Base.Panic Base.Arith Base.Flat Model.Vector Model.Matrix Model.Sparse.
 Import ListNotations.
@@ -31,7 +34,7 @@ Definition norm2 (v : list F) : F :=
   sqrt (fold_left (fun acc x => acc + abs x * abs x) v zero).
 
 Inductive iresult := IOk (k : nat) | IErr (e : F).          (* Result<usize, f64> *)
-Record ghost := mkG { g_t : list F; g_X : F }.
+Record ghost := mkG { g_t : list F; g_X : F; g_exit : nat }.
 Definition iout := (iresult * list F * ghost)%type.         (* (Result, final x, ghost) *)
 
 Definition tmax (a b : F) : F := if ltb a b then b else a.
@@ -88,10 +91,10 @@ Definition cg_body (tol normb : F) (i : nat) (s : cg_st) : res (step_out cg_st) 
   let* r := vsub (cg_r s) (vscale q alpha) in
   let* resid := div (norm2 r) normb in
   let X := track (cg_X s) u x in
-  if leb resid tol then Ok (Return (IOk i, x, mkG r X))
+  if leb resid tol then Ok (Return (IOk i, x, mkG r X 1))
   else Ok (Continue (mkCG x r p z rho resid X)).
 
-Definition cg_final (s : cg_st) : iout := (IErr (cg_resid s), cg_x s, mkG (cg_r s) (cg_X s)).
+Definition cg_final (s : cg_st) : iout := (IErr (cg_resid s), cg_x s, mkG (cg_r s) (cg_X s) 2).
 
 Definition solve_cg (b x : list F) (max_iter : nat) (tol : F) : res iout :=
   let* _ := guards b x in
@@ -101,7 +104,7 @@ Definition solve_cg (b x : list F) (max_iter : nat) (tol : F) : res iout :=
   let normb := nz normb in
   let* resid := div (norm2 r) normb in
   let X := norm2 x in
-  if leb resid tol then Ok (IOk 0, x, mkG r X) else
+  if leb resid tol then Ok (IOk 0, x, mkG r X 0) else
   iloop (cg_body tol normb) cg_final max_iter 1 (mkCG x r zeros zeros one resid X).
 
 (* ------------------------------------------------------------------ solve_bicg (309-369) *)
@@ -128,11 +131,11 @@ Definition bicg_body (itol : nat) (tol bnrm : F) (i : nat) (s : bicg_st) : res (
   let* err := (if itol =? 1 then div (norm2 r) bnrm else Ok (bi_err s)) in
   let* err := (if itol =? 2 then div (norm2 z) bnrm else Ok err) in
   let X := track (bi_X s) u x in
-  if leb err tol then Ok (Return (IOk i, x, mkG (if itol =? 2 then z else r) X))
+  if leb err tol then Ok (Return (IOk i, x, mkG (if itol =? 2 then z else r) X 1))
   else Ok (Continue (mkBI x r rr z zz p pp rho_1 err X)).
 
 Definition bicg_final (itol : nat) (s : bicg_st) : iout :=
-  (IErr (bi_err s), bi_x s, mkG (if itol =? 2 then bi_z s else bi_r s) (bi_X s)).
+  (IErr (bi_err s), bi_x s, mkG (if itol =? 2 then bi_z s else bi_r s) (bi_X s) 2).
 
 (* start-up shared by the repaired and the legacy variant: guards, r, rr, bnrm, z *)
 Definition bicg_start (itol : nat) (b x : list F) : res (list F * F * list F) :=
@@ -155,7 +158,7 @@ Definition solve_bicg (itol : nat) (b x : list F) (max_iter : nat) (tol : F) : r
   let bnrm := nz bnrm in
   let* err := div (norm2 z) bnrm in
   let X := norm2 x in
-  if leb err tol then Ok (IOk 0, x, mkG (if itol =? 2 then z else r) X) else
+  if leb err tol then Ok (IOk 0, x, mkG (if itol =? 2 then z else r) X 0) else
   iloop (bicg_body itol tol bnrm) (bicg_final itol) max_iter 1
         (mkBI x r r z zeros zeros zeros one err X).
 
@@ -166,7 +169,7 @@ Record stab_st := mkST { st_x : list F; st_r : list F; st_p : list F; st_phat : 
 Definition stab_body (rtilde : list F) (tol normb : F) (i : nat) (s : stab_st) : res (step_out stab_st) :=
   let* rho_1 := dot rtilde (st_r s) in
   if eqb rho_1 zero then
-    let* e := div (norm2 (st_r s)) normb in Ok (Return (IErr e, st_x s, mkG (st_r s) (st_X s)))
+    let* e := div (norm2 (st_r s)) normb in Ok (Return (IErr e, st_x s, mkG (st_r s) (st_X s) 10))
   else
   let* p := (if i =? 1 then Ok (st_r s)
              else let* q1 := div rho_1 (st_rho2 s) in
@@ -183,7 +186,7 @@ Definition stab_body (rtilde : list F) (tol normb : F) (i : nat) (s : stab_st) :
   if leb resid tol then
     let u := vscale phat alpha in
     let* x := vadd (st_x s) u in
-    Ok (Return (IOk i, x, mkG sv (track (st_X s) u x)))
+    Ok (Return (IOk i, x, mkG sv (track (st_X s) u x) 3))
   else
   let* shat := ident_pre sv (st_shat s) in
   let* t := mulA shat in
@@ -198,11 +201,11 @@ Definition stab_body (rtilde : list F) (tol normb : F) (i : nat) (s : stab_st) :
   let X := track X u2 x in
   let* r := vsub sv (vscale t omega) in
   let* resid := div (norm2 r) normb in
-  if ltb resid tol then Ok (Return (IOk i, x, mkG r X)) else
-  if eqb omega zero then Ok (Return (IErr resid, x, mkG r X)) else
+  if ltb resid tol then Ok (Return (IOk i, x, mkG r X 1)) else
+  if eqb omega zero then Ok (Return (IErr resid, x, mkG r X 11)) else
   Ok (Continue (mkST x r p phat shat v rho_1 alpha omega resid X)).
 
-Definition stab_final (s : stab_st) : iout := (IErr (st_resid s), st_x s, mkG (st_r s) (st_X s)).
+Definition stab_final (s : stab_st) : iout := (IErr (st_resid s), st_x s, mkG (st_r s) (st_X s) 2).
 
 Definition solve_bicgstab (b x : list F) (max_iter : nat) (tol : F) : res iout :=
   let* _ := guards b x in
@@ -213,7 +216,7 @@ Definition solve_bicgstab (b x : list F) (max_iter : nat) (tol : F) : res iout :
   let normb := nz normb in
   let* resid := div (norm2 r) normb in
   let X := norm2 x in
-  if leb resid tol then Ok (IOk 0, x, mkG r X) else
+  if leb resid tol then Ok (IOk 0, x, mkG r X 0) else
   iloop (stab_body rtilde tol normb) stab_final max_iter 1
         (mkST x r zeros zeros zeros zeros one one one resid X).
 
@@ -223,18 +226,19 @@ Record qmr_st := mkQ { q_x : list F; q_r : list F; q_vt : list F; q_y : list F; 
                        q_rho : F; q_xi : F; q_gamma : F; q_eta : F; q_theta : F; q_ep : F;
                        q_resid : F; q_X : F }.
 
-Definition qmr_final (s : qmr_st) : iout := (IErr (q_resid s), q_x s, mkG (q_r s) (q_X s)).
+Definition qmr_exit (e : nat) (s : qmr_st) : iout := (IErr (q_resid s), q_x s, mkG (q_r s) (q_X s) e).
+Definition qmr_final := qmr_exit 2.
 
 Definition qmr_body (tol normb : F) (i : nat) (s : qmr_st) : res (step_out qmr_st) :=
-  let bail := Ok (Return (qmr_final s)) in                      (* return Err( resid ) *)
-  if eqb (q_rho s) zero then bail else
-  if eqb (q_xi s) zero then bail else
+  let bail e := Ok (Return (qmr_exit e s)) in                   (* return Err( resid ) *)
+  if eqb (q_rho s) zero then bail 20 else
+  if eqb (q_xi s) zero then bail 21 else
   let* v := vdiv (q_vt s) (q_rho s) in
   let* y := vdiv (q_y s) (q_rho s) in
   let* w := vdiv (q_wt s) (q_xi s) in
   let* z := vdiv (q_z s) (q_xi s) in
   let* delta := dot z y in
-  if eqb delta zero then bail else
+  if eqb delta zero then bail 22 else
   let y_tld := y in
   let z_tld := z in
   let* pq := (if 1 <? i then
@@ -246,9 +250,9 @@ Definition qmr_body (tol normb : F) (i : nat) (s : qmr_st) : res (step_out qmr_s
   let '(p, q) := pq in
   let* p_tld := mulA p in
   let* ep := dot q p_tld in
-  if eqb ep zero then bail else
+  if eqb ep zero then bail 23 else
   let* beta := div ep delta in
-  if eqb beta zero then bail else
+  if eqb beta zero then bail 24 else
   let* v_tld := vsub p_tld (vscale_l beta v) in
   let y := v_tld in
   let rho_1 := q_rho s in
@@ -261,7 +265,7 @@ Definition qmr_body (tol normb : F) (i : nat) (s : qmr_st) : res (step_out qmr_s
   let theta_1 := q_theta s in
   let* theta := div rho (gamma_1 * beta) in
   let* gamma := div one (sqrt (one + theta * theta)) in
-  if eqb gamma zero then bail else
+  if eqb gamma zero then bail 25 else
   let* eta := div (((- (q_eta s)) * rho_1) * gamma * gamma) ((beta * gamma_1) * gamma_1) in
   let c := ((theta_1 * theta_1) * gamma) * gamma in
   let* ds := (if 1 <? i then
@@ -273,7 +277,7 @@ Definition qmr_body (tol normb : F) (i : nat) (s : qmr_st) : res (step_out qmr_s
   let* r := vsub (q_r s) sv in
   let* resid := div (norm2 r) normb in
   let X := track (q_X s) d x in
-  if leb resid tol then Ok (Return (IOk i, x, mkG r X)) else
+  if leb resid tol then Ok (Return (IOk i, x, mkG r X 1)) else
   Ok (Continue (mkQ x r v_tld y w_tld z p q d sv rho xi gamma eta theta ep resid X)).
 
 Definition solve_qmr (b x : list F) (max_iter : nat) (tol : F) : res iout :=
@@ -284,7 +288,7 @@ Definition solve_qmr (b x : list F) (max_iter : nat) (tol : F) : res iout :=
   let normb := nz normb in
   let* resid := div (norm2 r) normb in
   let X := norm2 x in
-  if leb resid tol then Ok (IOk 0, x, mkG r X) else
+  if leb resid tol then Ok (IOk 0, x, mkG r X 0) else
   let rho := norm2 r in
   let xi := norm2 r in
   iloop (qmr_body tol normb) qmr_final max_iter 1
@@ -317,9 +321,9 @@ Definition it_flat (fs : F -> list Z) (n : nat) (o : res iout) : list Z :=
   fl_res (fun o : iout =>
     (match fst (fst o) with IOk k => fl_nat 0 ++ fl_nat k | IErr e => fl_nat 1 ++ fs e end)
     ++ fl_list fs (snd (fst o)) ++ fl_nat n) o.
-(* ... followed by the ghost trace value X (for the oracle of C08 only) *)
+(* ... followed by the ghost trace: X and the exit code (for the oracles only) *)
 Definition it_flat_tr (fs : F -> list Z) (n : nat) (o : res iout) : list Z :=
-  it_flat fs n o ++ match o with Ok o => fs (g_X (snd o)) | Panic _ => [] end.
+  it_flat fs n o ++ match o with Ok o => fs (g_X (snd o)) ++ fl_nat (g_exit (snd o)) | Panic _ => [] end.
 
 End Iter.
 
